@@ -601,9 +601,12 @@ register('C19', 'proof',
                       'the frame of the whole call tree of test_start_application / test_start_processes (store_application -> '
                       'resolve_rules writes the live rules; Starter.after is not overridden by the model and may call the real '
                       'stopper) is NOT under contract: only the model-object isolation is proved',
-                      'StarterModel.next (comprehension over three nested plans); StarterModel.feed_model: the event loop is '
-                      'proved to write mocks only under an assumed abstraction of Commander.on_event, but the facet is PARKED '
-                      '(contracts/wip_c19_feed.txt): the engine cannot type the dict literals built by the comprehension of the '
-                      'return expression'],
-         assumptions=['ProcessStatus contracts of C11'],
+                      'StarterModel.next (comprehension over three nested plans)',
+                      'StarterModel.feed_model (contracts/c19_feed.py) is proved to write mocks only, to leave every live '
+                      'status / per-instance record as it was and to send no request, but only UNDER AN ASSUMED file-local '
+                      'abstraction of Commander.on_event (the acknowledgement reaches model objects only); the payload '
+                      'records of its return value are abstracted (opaque), their contents are not decided'],
+         assumptions=['ProcessStatus contracts of C11',
+                      'contracts/c19_feed.py ModelOnEventAbstraction: Commander.on_event called on a StarterModel only '
+                      'reaches model objects and sends nothing (assumed, file-local, group process_feed)'],
          extra='pyvc.structural_c19')
